@@ -128,9 +128,10 @@ PROPS = {
                 'dirty list and to release the commit lock; tpc_finish releases it on every path; MappingStorage.tpc_abort '
                 'proved to forget its own transaction and free the commit lock, and to change nothing for a foreign one; '
                 'MappingStorage.tpc_begin proved to refuse a duplicate call without effect, to take the commit lock outside '
-                'the storage lock and to leave LOCKINV with an empty staging area.',
+                'the storage lock and to leave LOCKINV with an empty staging area; MappingStorage.tpc_vote/tpc_finish '
+                'for a foreign transaction proved refused without effect and before the finish callback runs.',
         'note': 'Single fault (a second failure inside a cleanup handler is outside). MappingStorage.'
-                'tpc_finish: not under contract; DemoStorage/BlobStorage wrappers: see C16/C13. Connection-level cleanup: C11.',
+                'tpc_finish for its OWN transaction: not under contract; DemoStorage/BlobStorage wrappers: see C16/C13. Connection-level cleanup: C11.',
         'design_ref': 'DESIGN.md section 5 C05',
     },
     'C03': {
